@@ -17,14 +17,18 @@ def isValuePos (t : Tree) : Bool :=
   | some (ty, _) => literalKinds.contains ty || ty == valArgNo
   | none => false
 
+/-- a tuple all of whose elements are value positions -/
+def tupleAllValues : Tree → Bool
+  | .node "ValTuple" items => items.all isValuePos
+  | _ => false
+
+/-- the operator atom says IN or NOT IN -/
+def isInOp (t : Tree) : Bool := t.atomBytes == inStr || t.atomBytes == notInStr
+
 /-- IN / NOT IN with a tuple of values on the right (`convertComparison` turns it into a list argument when
 `sqlToBindvar` accepts every element, otherwise the elements become placeholders one by one) -/
 def inTuple (ks : List Tree) : Bool :=
-  let op := (ks.getD cmpOpIdx (.atom [])).atomBytes
-  (op == inStr || op == notInStr) &&
-  match ks.getD cmpRightIdx (.atom []) with
-  | .node "ValTuple" items => items.all isValuePos
-  | _ => false
+  isInOp (ks.getD cmpOpIdx (.atom [])) && tupleAllValues (ks.getD cmpRightIdx (.atom []))
 
 mutual
 def shape : Tree → Tree
